@@ -29,12 +29,12 @@ VERIF = Path(__file__).resolve().parent.parent
 REPO = Path(os.environ.get("VERIF_REPO", "/repo"))
 
 FILE_CHECKS = {
-    "mathy_core/tree.py": ["C14", "C15", "C13", "C07"],
-    "mathy_core/expressions.py": ["C04", "C05", "C13", "C14", "C01"],
-    "mathy_core/tokenizer.py": ["C11", "C12"],
-    "mathy_core/parser.py": ["C03", "C10", "C12"],
-    "mathy_core/rule.py": ["C06", "C07"],
-    "mathy_core/util.py": ["C16", "C01", "C06", "C08"],
+    "mathy_core/tree.py": ["C14", "C15", "C13", "C07", "C18"],
+    "mathy_core/expressions.py": ["C04", "C05", "C13", "C14", "C01", "C06"],
+    "mathy_core/tokenizer.py": ["C11", "C12", "C10", "C03"],
+    "mathy_core/parser.py": ["C03", "C10", "C12", "C04"],
+    "mathy_core/rule.py": ["C06", "C07", "C01", "C09"],
+    "mathy_core/util.py": ["C16", "C01", "C02", "C06", "C07", "C08"],
     "mathy_core/layout.py": ["C18"],
     "mathy_core/problems.py": ["C17"],
 }
